@@ -99,6 +99,24 @@ def mixed(own, tier, pid, need_watch=False, serial_only=False):
         # borrowed shapes only: firing timeouts / cancellation clean-up belong to the profiles whose oracles handle them
         sc.pop('timeouts', None)
         sc['handlers'] = [{k: v for k, v in h.items() if k != 'cleanup'} for h in sc['handlers']]
+        # ... and so do the special-purpose operations each profile added for its own property (re-dispatch of existing objects, replicas,
+        # fan-out beyond the backlog limit, rebuilt events, one object on two buses, expect(), shadow buses, declared result types)
+        sc['handlers'] = [dict(h, prog=[op for op in h['prog'] if op[0] not in ('hredisp', 'fwdreplica', 'fan')]) for h in sc['handlers']]
+        acts = []
+        for a in sc['actors']:
+            ops = []
+            for op in a:
+                if op[0] in ('replay', 'expect'):
+                    continue
+                if op[0] == 'disp' and len(op) > 3 and isinstance(op[3], dict) and 'also' in op[3]:
+                    op = op[:3] + [{k: v for k, v in op[3].items() if k != 'also'}]
+                ops.append(op)
+            acts.append(ops or [['yield', 1]])
+        sc['actors'] = acts
+        for k in ('shadow', 'rtypes', 'stops', 'wal', 'payloads'):
+            sc.pop(k, None)
+        if sc.get('cap', 0) > 120:
+            sc['cap'] = 120
         return sc
 
     if not others:
